@@ -217,6 +217,7 @@ def run_tlc(module, cfg, out_cases=None, workers=None, simulate=None, depth=None
                 else:
                     raise Infra("TLC failed on %s (rc=%s): %s\n%s" % (module, p.returncode, err, "\n".join(tail[-40:])))
             stats["cases"] = ncases
+            stats["spec"] = spec_digest()
             stats["wall_s"] = round(time.time() - t0, 2)
             stats["cached"] = False
             if not extra_files:
@@ -229,6 +230,21 @@ def run_tlc(module, cfg, out_cases=None, workers=None, simulate=None, depth=None
         finally:
             pass
     return stats
+
+
+def prune_cache():
+    """Drop cached corpora computed from another version of the specification."""
+    if not os.path.isdir(CACHE):
+        return
+    cur = spec_digest()
+    for d in os.listdir(CACHE):
+        st = os.path.join(CACHE, d, "stats.json")
+        try:
+            ok = json.load(open(st)).get("spec") == cur
+        except Exception:
+            ok = False
+        if not ok:
+            shutil.rmtree(os.path.join(CACHE, d), ignore_errors=True)
 
 
 def run_harness(binary, args, timeout=1800):
